@@ -255,13 +255,15 @@ func fieldTerm(typ, field, ptr string) string {
 
 // replayObligation tries to reproduce a sat obligation on the real code.
 func replayObligation(p *Prog, prop string, o *Obligation) (string, bool) {
-	path := filepath.Join(verifDir, "replay", prop+"-"+safeName(o.Name)+".txt")
+	path := filepath.Join(outDir, "replay", prop+"-"+safeName(o.Name)+".txt")
 	var report strings.Builder
 	fmt.Fprintf(&report, "property: %s\nfailed obligation: %s\nkind: %s\nclause: %s\nposition: %s\nsolver: %s result: %s (%.2fs)\n\n", prop, o.Name, o.Kind, o.Src, o.Pos, o.Solver, o.Result, o.TimeS)
 	reproduced := false
 	tplPath := filepath.Join(verifDir, "replaytpl", safeName(o.Fn)+".tmpl")
 	tplText, err := os.ReadFile(tplPath)
-	if err != nil {
+	if skipReplay {
+		report.WriteString("replay: skipped (-noreplay)\n")
+	} else if err != nil {
 		report.WriteString("replay: no replay template for " + o.Fn + "; the obligation itself is the violation report\n")
 	} else {
 		tmp, _ := os.MkdirTemp("", "govc-replay")
